@@ -20,6 +20,7 @@ from ...grids.boundaries.local import (
     BCBase,
     ConstBC1stOrderBase,
     ConstBC2ndOrderBase,
+    ConstBCBase,
     CurvatureBC,
     DirichletBC,
     ExpressionBC,
@@ -393,11 +394,11 @@ def _make_expression_virtual_point_evaluator(
     return virtual_point
 
 
-def _make_value_getter(bc: ConstBC1stOrderBase) -> Callable[[], NumericArray]:
+def _make_value_getter(bc: ConstBCBase) -> Callable[[], NumericArray]:
     """Return a compiled function for obtaining the value.
 
     Args:
-        bc (:class:`~pde.grids.boundaries.local.ConstBC1stOrderBase`):
+        bc (:class:`~pde.grids.boundaries.local.ConstBCBase`):
             Defines the boundary conditions for a particular side, for which the value
             getter should be defined.
 
@@ -702,7 +703,26 @@ def _make_const2ndorder_virtual_point_evaluator(
     # calculate necessary constants
     data = _get_virtual_point_data_2ndorder(bc)
 
-    if bc.homogeneous:
+    if bc.value_is_linked and isinstance(bc, CurvatureBC):
+        # read the linked array whenever the virtual point is evaluated, since numpy
+        # arrays in closures are compile-time constants
+        value_func = _make_value_getter(bc)
+        dx2 = bc.grid.discretization[bc.axis] ** 2
+        i1, i2 = data[2], data[4]
+
+        @register_jitable
+        def virtual_point(arr: NumericArray, idx: tuple[int, ...], args=None):
+            """Evaluate the virtual point at `idx`"""
+            arr_1d, _, bc_idx = get_arr_1d(arr, idx)
+            if normal:
+                val1 = arr_1d[..., axis, i1]
+                val2 = arr_1d[..., axis, i2]
+            else:
+                val1 = arr_1d[..., i1]
+                val2 = arr_1d[..., i2]
+            return value_func()[bc_idx] * dx2 + 2.0 * val1 - val2
+
+    elif bc.homogeneous:
 
         @register_jitable
         def virtual_point(arr: NumericArray, idx: tuple[int, ...], args=None):
